@@ -404,3 +404,33 @@ add("C07", "block comment without sanitize_comment", G,
 add("C07", "benign: sanitize via a local", G,
     "        comments_list = [\n            f\"/*{self._replace_line_breaks(self.sanitize_comment(comment))}*/\"\n            for comment in comments\n            if comment\n        ]\n",
     "        comments_list = [\n            f\"/*{self._replace_line_breaks(self.sanitize_comment(comment))}*/\"\n            for comment in list(comments)\n            if comment\n        ]\n", "silent")
+
+# ------------------------------------------------------------------------------- C04
+add("C04", "Hive string escapes become a double quote only", "sqlglot/dialects/hive.py",
+    "        STRING_ESCAPES = [\"\\\\\"]\n", "        STRING_ESCAPES = ['\"']\n", "C04.R1")
+add("C04", "add a reader escape the writer does not escape", "sqlglot/dialects/postgres.py",
+    "    class Tokenizer(tokens.Tokenizer):\n", "    class Tokenizer(tokens.Tokenizer):\n        STRING_ESCAPES = [\"'\", \"^\"]\n", "C04.R2")
+add("C04", "global unescape table loses the backslash pair", DIALECT,
+    "    \"\\\\\\\\\": \"\\\\\",\n", "", "C04.R2")
+add("C04", "metaclass derives writer sequences the reader cannot decode", DIALECT,
+    "            v: k\n            for k, v in klass.UNESCAPED_SEQUENCES.items()", "            v: k.upper()\n            for k, v in klass.UNESCAPED_SEQUENCES.items()", "C04.R3")
+add("C04", "revert identifier backslash fix", G,
+    "        if self._identifier_escapes_backslash:\n            # A backslash is an escape character inside this dialect's quoted identifiers\n            text = text.replace(\"\\\\\", \"\\\\\\\\\")\n", "", "C04.R4")
+add("C04", "another dialect gains a backslash identifier escape without decode support", "sqlglot/dialects/presto.py",
+    "    class Tokenizer(tokens.Tokenizer):\n", "    class Tokenizer(tokens.Tokenizer):\n        IDENTIFIER_ESCAPES = [\"\\\\\"]\n", "C04.R4")
+add("C04", "literal_sql override bypasses escape_str", "sqlglot/generators/sqlite.py",
+    "class SQLiteGenerator(generator.Generator):\n", "class SQLiteGenerator(generator.Generator):\n    def literal_sql(self, expression: exp.Literal) -> str:\n        return f\"'{expression.this}'\" if expression.is_string else expression.this\n\n", "C04.R5")
+add("C04", "identifier quoted before escaping on one path", G,
+    "        text = text.replace(self._identifier_end, self._escaped_identifier_end)\n        if (\n            quoted",
+    "        if not quoted:\n            text = text.replace(self._identifier_end, self._escaped_identifier_end)\n        if (\n            quoted", "C04.R7")
+add("C04", "escaped quote built from the last escape instead of the first", G,
+    "            self.dialect.tokenizer_class.STRING_ESCAPES[0] + self.dialect.QUOTE_END\n        )\n        self._escaped_byte_quote_end",
+    "            self.dialect.tokenizer_class.STRING_ESCAPES[-1] + self.dialect.QUOTE_END\n        )\n        self._escaped_byte_quote_end", "C04.R7")
+add("C04", "reader drops the quote rule of the escape branch", "sqlglot/tokenizer_core.py",
+    "                and (self._char not in quotes or self._char == self._peek)\n", "", "C04.R7")
+add("C04", "emit a line comment (C04 view)", G,
+    "        return f\"{sql} {' '.join(comments_list)}\"\n", "        return f\"{sql} -- {' '.join(comments_list)}\"\n", "C04.R6")
+add("C04", "benign: add a second quote style", "sqlglot/dialects/postgres.py",
+    "    class Tokenizer(tokens.Tokenizer):\n", "    class Tokenizer(tokens.Tokenizer):\n        QUOTES = [\"'\", \"$$\"]\n", "silent")
+add("C04", "benign: TSQL-style override that still delegates", "sqlglot/generators/sqlite.py",
+    "class SQLiteGenerator(generator.Generator):\n", "class SQLiteGenerator(generator.Generator):\n    def literal_sql(self, expression: exp.Literal) -> str:\n        text = super().literal_sql(expression)\n        return text\n\n", "silent")
